@@ -78,8 +78,10 @@ DevFixedStr  == "C08-fixed-string-coercion"
 DevStructure == "C08-named-by-structure"
 DevUnionDef  == "C08-union-default-null-shortcut"
 DevBytesDef  == "C08-bytes-default-utf8"
+DevCoerce    == "C08-default-coercions-on-written-data"
 DevUtf8      == "C09-bytes-to-string-unchecked"      \* used by Compat only: explains, never excuses a C08 result
-AllDevs == {DevAlias, DevLongInt, DevDblFlt, DevLogical, DevFixedStr, DevStructure, DevUnionDef, DevBytesDef}
+AllDevs == {DevAlias, DevLongInt, DevDblFlt, DevLogical, DevFixedStr, DevStructure, DevUnionDef, DevBytesDef, DevCoerce}
+FitPolicy == [order |-> "first", deep |-> TRUE, udef |-> "fit"]
 
 (***************************************************************************)
 (* Leaves: same primitive, or a promotion.  Logical int/long types resolve *)
@@ -221,6 +223,22 @@ WriterFieldFor(rf, w, D) ==
   ELSE IF hits # {} THEN LET a == MinOf(hits) IN CHOOSE i \in 1..Len(w.fields) : w.fields[i].name = al[a]
   ELSE 0
 
+(* (deviation DevCoerce) the conversions meant for JSON defaults, applied to WRITTEN data:                      *)
+(*   a written string names an enum symbol (unknown => the enum default); an array of small ints is bytes;      *)
+(*   a map is a record (assumption of the universes: no map key equals a reader field name, so every field of   *)
+(*   that record comes from its default).                                                                        *)
+SymBytes(sym) == CASE sym = "A" -> <<65>> [] sym = "B" -> <<66>> [] sym = "C" -> <<67>> [] sym = "D" -> <<68>>
+                   [] sym = "Z" -> <<90>> [] OTHER -> <<0>>
+EnumFromString(r, v) ==
+  LET hit == {i \in 1..Len(r.symbols) : SymBytes(r.symbols[i]) = v.b} IN
+  IF hit # {} THEN EnumTerm(r, r.symbols[MinOf(hit)])
+  ELSE IF EHasDef(r) /\ r.def \in SeqRange(r.symbols) THEN EnumTerm(r, r.def) ELSE Err
+IsU8(x) == x.t \in {"int", "long"} /\ x.n[2] = 0 /\ x.n[3] = 0 /\ x.n[4] = 0 /\ x.n[5] = 0 /\ x.n[6] = 0 /\ x.n[7] = 0 /\ x.n[8] = 0
+ArrayToBytes(v) ==
+  IF \A i \in 1..Len(v.items) : IsU8(v.items[i]) THEN [t |-> "bytes", b |-> [i \in 1..Len(v.items) |-> v.items[i].n[1]]] ELSE Err
+EmptyRecSchema(n) == [k |-> "record", name |-> n, fields |-> <<>>]
+EmptyRecValue == [t |-> "record", fields |-> <<>>]
+
 RECURSIVE Res(_, _, _, _, _, _, _)
 Res(w0, r0, v, ew, er, D, p) ==
   LET w == Deref(w0, ew)  r == Deref(r0, er) IN
@@ -240,7 +258,12 @@ Res(w0, r0, v, ew, er, D, p) ==
                       IF w.k \in LeafKinds THEN b.k \in LeafKinds /\ BaseKind(b.k) = BaseKind(w.k) ELSE b.k = w.k
            same == {i \in 1..n : kind(i)}
            sameOk == {i \in same : ok(i)}
+           \* (DevCoerce) a written map is also tried as a record: the earlier of the map branch and the first record
+           \* branch it "resolves" against wins
+           recsOk == {i \in 1..n : Deref(r.branches[i], er).k = "record" /\ ok(i)}
            impl == IF w.k \in LeafKinds /\ same # {} THEN same
+                   ELSE IF w.k = "map" /\ DevCoerce \in D /\ recsOk # {}
+                        THEN (IF sameOk # {} /\ MinOf(sameOk) < MinOf(recsOk) THEN sameOk ELSE recsOk)
                    ELSE IF sameOk # {} THEN sameOk ELSE {i \in 1..n : ok(i)}
            pick == IF D # {} THEN impl
                    ELSE IF p.order = "exact" /\ ex # {} THEN ex ELSE m
@@ -251,6 +274,7 @@ Res(w0, r0, v, ew, er, D, p) ==
               IF r.k \in LeafKinds THEN LeafConv(w, r, v, D)
               ELSE IF DevFixedStr \in D /\ r.k = "fixed" /\ w.k = "string" THEN [t |-> "fixed", b |-> v.b]
               ELSE IF DevFixedStr \in D /\ r.k = "fixed" /\ w.k = "bytes" /\ Len(v.b) = r.size THEN [t |-> "fixed", b |-> v.b]
+              ELSE IF DevCoerce \in D /\ r.k = "enum" /\ w.k = "string" THEN EnumFromString(r, v)
               ELSE Err
          [] w.k = "fixed" ->
               IF r.k = "fixed" /\ r.size = w.size /\ (r.name = w.name \/ DevStructure \in D) THEN v
@@ -259,11 +283,14 @@ Res(w0, r0, v, ew, er, D, p) ==
          [] w.k = "enum" ->
               IF r.k = "enum" /\ (r.name = w.name \/ DevStructure \in D) THEN EnumConv(r, v) ELSE Err
          [] w.k = "array" ->
-              IF r.k # "array" THEN Err
+              IF DevCoerce \in D /\ r.k = "bytes" /\ Deref(w.items, ew).k \in {"int", "long"} THEN ArrayToBytes(v)
+              ELSE IF r.k # "array" THEN Err
               ELSE LET q == TLCEval([i \in 1..Len(v.items) |-> Res(w.items, r.items, v.items[i], ew, er, D, p)]) IN
                    IF AnyErr(q) THEN Err ELSE [t |-> "array", items |-> q]
          [] w.k = "map" ->
-              IF r.k # "map" THEN Err
+              IF DevCoerce \in D /\ r.k = "record"
+              THEN Res(EmptyRecSchema(r.name), r, EmptyRecValue, ew, er, D, p)
+              ELSE IF r.k # "map" THEN Err
               ELSE LET q == TLCEval([i \in 1..Len(v.entries) |->
                                        Res(w.values, r.values, v.entries[i][2], ew, er, D, p)]) IN
                    IF AnyErr(q) THEN Err
